@@ -399,15 +399,16 @@ inductive Value where
   | bytes (bs : List Byte)
   | utf8 (bs : List Byte)           -- the UTF-8 bytes of a `&str`
   | bools (l : List Bool)           -- `encode_list_with(bool::encode)` / `decode_list_with(bool)`
+  | string (cs : List Nat)          -- `Encoder::string` / `Decoder::string` (scalar values of the chars)
   deriving Repr, DecidableEq
 
 inductive Kind where
-  | bool | u8 | bits (n : Nat) | word | int | char | bytes | utf8 | bools
+  | bool | u8 | bits (n : Nat) | word | int | char | bytes | utf8 | bools | string
   deriving Repr, DecidableEq
 
 def Value.kind : Value → Kind
   | .bool _ => .bool | .u8 _ => .u8 | .bits n _ => .bits n | .word _ => .word | .int _ => .int
-  | .char _ => .char | .bytes _ => .bytes | .utf8 _ => .utf8 | .bools _ => .bools
+  | .char _ => .char | .bytes _ => .bytes | .utf8 _ => .utf8 | .bools _ => .bools | .string _ => .string
 
 /-- `encode_list_with(list, bool::encode)` -/
 def Enc.bools (e : Enc) : List Bool → Enc
@@ -425,6 +426,7 @@ def Enc.value (e : Enc) : Value → ERes
   | .bytes bs => e.bytes bs
   | .utf8 bs => e.bytes bs
   | .bools l => .ok (e.bools l)
+  | .string cs => match e.string cs with | some e' => .ok e' | none => .panic
 
 def Enc.seq (e : Enc) : List Value → ERes
   | [] => .ok e
@@ -444,6 +446,7 @@ def Dec.value (d : Dec) : Kind → Res Value
   | .bytes => match d.bytes with | .ok b d' => .ok (.bytes b) d' | .err e d' => .err e d' | .panic => .panic
   | .utf8 => match d.utf8 with | .ok b d' => .ok (.utf8 b) d' | .err e d' => .err e d' | .panic => .panic
   | .bools => match d.list Dec.bool with | .ok b d' => .ok (.bools b) d' | .err e d' => .err e d' | .panic => .panic
+  | .string => match d.string with | .ok b d' => .ok (.string b) d' | .err e d' => .err e d' | .panic => .panic
 
 /-- decode one value per kind, stopping at the first error -/
 def Dec.seq (d : Dec) : List Kind → Res (List Value)
